@@ -213,6 +213,10 @@ class PathEnumerator:
             if isinstance(st.target, ast.Name):
                 cur = ev.expr(st.target, f)
                 val = ev.expr(st.value, f)
+                if isinstance(st.op, ast.Add) and cur[0] == "var" and cur[3][0] in ("list", "comp"):
+                    # ``acc += xs`` on a local list extends it in place
+                    p.events.append(Event("effect", st, ("call", ("attr", cur, "extend"), (val,), ())))
+                    return [p]
                 new = ev.binop(st.op, cur, val)
                 p.env[st.target.id] = new
                 p.events.append(Event("aug", st, val, extra=(st.target.id, type(st.op).__name__)))
